@@ -78,6 +78,9 @@ claim("C28", "BOUNDED stand-in for the round trip (exhaustive run of the real bu
 claim("C37", "Proof over every path of handleUnary, handleStreamInit and handleStreamExchange that each error response written after the dispatch hook was started is also recorded in *handlerErr (which the deferred cleanup hands to OnDispatchEnd).",
       "", ["exactly-one-start/one-end counting (startDispatchHook closures, pipe serveOne)", "success responses with non-nil handlerErr", "panics between start and end"])
 
+claim("C17", "Proof of the negotiation walk for all header strings and producible sets: chooseResponseEncoding returns the first candidate (custom-header tokens, then standard-header tokens not already offered) that is identity (-> no encoding) or producible, with used_custom iff the winner was offered on the custom header only; parseAcceptEncoding yields no empty and no duplicate token; containsEncoding is exact membership; gzipLevelFor's range; the advertised set is rendered from the producible set on every level change; finish compresses only a negotiated, non-empty Arrow body and stamps the header the negotiation chose.",
+      "strings.Split/TrimSpace/ToLower/IndexByte are unknown functions of their arguments.", ["losslessness of zstd/gzip (codec correctness)", "ServeHTTP's negotiation block"])
+
 # properties not claimed: reason
 NOT_APPLICABLE = {
     "C11": "relational two-run equivalence between the pipe loop and the HTTP handlers routed through gob, AEAD and Arrow IPC; contracts here are single-run and per function",
